@@ -44,7 +44,50 @@ def run_check(tier):
         chk.fail("MsgPack save: %s" % b["why"], {"record": byid[b["id"]], "verdict": b}, dev=dev)
     chk.add_cases(len(rows), distinct_keys=(json.dumps(x["root"]) for x in rows), validated=checked)
     chk.sample({"script": rows[len(rows) // 2]["root"], "bytes": json.loads(lines[len(lines) // 2])["mem"]})
+    sweep_leg(chk, quick)
     return chk.finish()
+
+
+def sweep_leg(chk, quick):
+    """Exhaustive part: every integer of the swept range through every integer type that holds it (thorough: all 16-bit values and
+    the neighbourhood of 2^16), and strings / binary / arrays at the 16/32-bit length thresholds."""
+    import os
+    neg, pos = (300, 300) if quick else (32770, 65540)
+    longs = "{}" if quick else "{65535, 65536}"
+    cfg = mp.write_cfg("mc_sweep.cfg", "SPECIFICATION Spec\nCONSTANTS\n  SweepNeg = %d\n  SweepPos = %d\n  LongLens = %s\nINVARIANTS EncoderConsistent ShortestInt Export\n" % (neg, pos, longs))
+    r = vlib.tlc("MC_SaveSweep", cfg=cfg, timeout=3000, xmx="8g")
+    chk.add_tlc("MC_SaveSweep", r, {"SweepNeg": neg, "SweepPos": pos, "LongLens": longs})
+    scen = r.printed("GEN")
+    total = 0
+    for lo in range(0, len(scen), 100000):
+        part = scen[lo:lo + 100000]
+        rows = [{"id": "w%d" % (lo + i), "root": s["root"]} for i, s in enumerate(part)]
+        sp = os.path.join(vlib.scratch(), "sweep_scn.ndjson")
+        vlib.write_ndjson(sp, rows)
+        obs = vlib.run_resumable([mp.harness(256), "save", sp], timeout=1800)
+        os.unlink(sp)
+        lines = []
+        for o in obs:
+            if "e" in o:
+                chk.fail("save %s: %s" % (rows[o["run"]]["id"], o["e"]), {"scenario": rows[o["run"]], "observed": o})
+                continue
+            o["root"] = rows[o["run"]]["root"]
+            lines.append(json.dumps(o))
+        checked, bad = vlib.validate_traces("Trace_SaveScript", lines)
+        byid = None
+        for b in bad:
+            if byid is None:
+                byid = {json.loads(l)["id"]: json.loads(l) for l in lines}
+            dev = None
+            if b["why"].startswith("dev:"):
+                dev = "+".join(DEVNAMES[x] for x in b["why"][4:].split("+"))
+            rec = byid[b["id"]]
+            if len(rec.get("mem", [])) > 300:
+                rec = dict(rec, mem=rec["mem"][:300], stream=rec["stream"][:300], root={"k": rec["root"]["k"], "t": rec["root"].get("t"), "len": len(rec["root"]["v"][1])})
+            chk.fail("MsgPack save (sweep): %s" % b["why"], {"record": rec, "verdict": b}, dev=dev)
+        chk.add_cases(len(rows), distinct_keys=(("sweep", x["root"]["t"], json.dumps(x["root"]["v"])[:80], len(json.dumps(x["root"]["v"]))) for x in rows), validated=checked)
+        total += len(rows)
+    chk.cov["sweep"] = {"integers": [-neg, pos], "long_lengths": longs, "scripts": total}
 
 
 def run(tier):
